@@ -114,7 +114,8 @@ class Proc:
         if env:
             e.update(env)
         self.argv = (wrapper or []) + argv
-        self.p = subprocess.Popen(self.argv, stdout=self.log, stderr=subprocess.STDOUT, env=e, cwd=logdir)
+        # own session: stop() can take down wrappers (strace) and their children without touching anybody else
+        self.p = subprocess.Popen(self.argv, stdout=self.log, stderr=subprocess.STDOUT, env=e, cwd=logdir, start_new_session=True)
 
     def alive(self):
         return self.p.poll() is None
@@ -138,25 +139,33 @@ class Proc:
             time.sleep(0.05)
         return False
 
+    def _killpg(self, sig):
+        try:
+            os.killpg(self.p.pid, sig)
+        except OSError:
+            pass
+
     def stop(self, sig=signal.SIGTERM):
         if self.alive():
             try:
-                self.p.send_signal(sig)
-                self.p.wait(timeout=5)
+                self._killpg(sig)
+                self.p.wait(timeout=3)
             except (OSError, subprocess.TimeoutExpired):
-                try:
-                    self.p.kill()
-                    self.p.wait(timeout=5)
-                except (OSError, subprocess.TimeoutExpired):
-                    pass
+                pass
+        # whatever is left of the group (tracees of a dead tracer, children) goes too
+        self._killpg(signal.SIGKILL)
+        try:
+            self.p.wait(timeout=5)
+        except (OSError, subprocess.TimeoutExpired):
+            pass
         try:
             self.log.close()
         except OSError:
             pass
 
     def kill9(self):
+        self._killpg(signal.SIGKILL)
         try:
-            self.p.kill()
             self.p.wait(timeout=5)
         except (OSError, subprocess.TimeoutExpired):
             pass
